@@ -158,6 +158,16 @@ func (s *MemoryAllocationStore) SaveAllocation(ctx context.Context, alloc Alloca
 		}
 	}
 
+	// The subscriber may already hold another address in this pool (its record is
+	// being replaced): that address must no longer resolve to the subscriber.
+	if prev, exists := s.byPool[alloc.PoolID][alloc.SubscriberID]; exists && prev.Prefix != nil {
+		if prevKey := prev.Prefix.IP.String(); prevKey != ipKey {
+			if cur, ok := s.byIP[prevKey]; ok && cur.SubscriberID == alloc.SubscriberID && cur.PoolID == alloc.PoolID {
+				delete(s.byIP, prevKey)
+			}
+		}
+	}
+
 	// Update pool index
 	if s.byPool[alloc.PoolID] == nil {
 		s.byPool[alloc.PoolID] = make(map[string]AllocationRecord)
